@@ -107,3 +107,30 @@ Proof.
 Qed.
 Print Assumptions C06_source_potential_prefix.
 Print Assumptions C06_source_remove_rule.
+
+(* ---- the INSTALLATION of a rule, translated (GenTraphZ.v: Traph.add_webentity_creation_rule, whose loop consumes dfs_iter while
+   its body writes the trie: the generator is translated with a visitor called at every yield, on explicit fuel; out of fuel is
+   None).  For EVERY history whose reopen requests re-supply the rules, on the RAM tables, header and trie bytes of the state
+   reached, for every anchor and rule kind: for every sufficient fuel the translated request answers the SPECIFICATION's report
+   (C06_rule_install: that of re-inserting the pages beneath the anchor) and leaves the RAM rule table, the header and the file
+   of the model's next state.  Through GenTraphZFacts.v (the translated loop is Sched.v's lazily reading coroutine, step for step)
+   and RuleRunFacts.v (that coroutine run alone is the sequential add_rule).  Size hypotheses on the final state. *)
+From Traph Require GenTraphZ GenTraphZAll.
+Import GenTraphZ.
+Theorem C06_source_rule_install : forall d rs h, wf_rules rs -> Forall wf_op h -> resupplied (init d rs) h ->
+  let s := run d rs h in let a := srun d rs h in
+  forall rm hd sg p k, ramrep s rm -> hrep s hd sg -> wf_lru p ->
+  let s' := fst (Ops.step s (OAddRule p k)) in
+  nb s' * 128 < 2 ^ 64 -> lastwe s' + 1 < 2 ^ 32 ->
+  exists n c, snd (sstep s a (OAddRule p k)) = Report n c /\
+  exists f0 rm' hd' sg',
+    (forall f, (f0 <= f)%nat ->
+       py_traph_add_webentity_creation_rule f rm hd sg p k true = Some (rm', hd', sg', report_of n c)) /\
+    hrep s' hd' sg' /\ ramrep s' rm'.
+Proof.
+  intros d rs h H1 H2 H3 s a rm hd sg p k Hram Hh Hp s' Hsz Hlt.
+  pose proof (proj2 (step_R _ _ (OAddRule p k) (run_RR d rs h H1 H2) Hp)) as Hspec. fold s a in Hspec.
+  rewrite <- Hspec. clear Hspec. unfold s' in *. cbn [Ops.step] in *.
+  exact (GenTraphZAll.py_traph_add_rule_spec_reach d rs h H1 H2 H3 rm hd sg p k Hram Hh Hp Hsz Hlt).
+Qed.
+Print Assumptions C06_source_rule_install.
